@@ -329,8 +329,9 @@ Definition node_loose (n : rnode) : bool :=
   let is_none d := match d with DNone => true | _ => false end in
   match rn_dec n with
   | None => is_none (rn_cont n)
-  | Some d => existsb (fun cd => is_none (snd cd)) (rd_cats d) || is_none (snd (rd_default d))
-              || match rd_noresp d with Some (_, x) => is_none x | None => false end
+  | Some d => if rd_random d then existsb (fun cd => is_none (snd cd)) (rd_cats d)      (* a random split has buckets only *)
+              else existsb (fun cd => is_none (snd cd)) (rd_cats d) || is_none (snd (rd_default d))
+                   || match rd_noresp d with Some (_, x) => is_none x | None => false end
   end.
 
 Fixpoint has_loose (fuel : nat) (s : st) (g : nat) : bool :=
